@@ -6,13 +6,13 @@ import (
 	"os"
 	"os/exec"
 	"path/filepath"
+	"strings"
 )
 
 // placeholders extended later (reflect shim, more stubs)
 
 type RVal struct{}
 type RType struct{ t interface{ String() string } }
-
 
 // computeInjectedImpl obtains the two registry scalars the palette code reads
 // from packages whose init is not executed symbolically (DESIGN 3.3): a native
@@ -38,7 +38,14 @@ import (
 	"github.com/Tnze/go-mc/level/block"
 )
 
-func main() { fmt.Println(block.BitsPerBlock, biome.BitsPerBiome) }
+func main() {
+	fmt.Println(block.BitsPerBlock, biome.BitsPerBiome, len(block.StateList))
+	for i := range block.StateList {
+		if block.IsAir(block.StateID(i)) {
+			fmt.Println(i)
+		}
+	}
+}
 `
 	mainFile := filepath.Join(tmp, "main.go")
 	if err := os.WriteFile(mainFile, []byte(src), 0o644); err != nil {
@@ -54,9 +61,18 @@ func main() { fmt.Println(block.BitsPerBlock, biome.BitsPerBiome) }
 	if err != nil {
 		return fmt.Errorf("%v: %s", err, out)
 	}
-	var a, b uint64
-	if _, err := fmt.Sscan(string(out), &a, &b); err != nil {
+	var a, b, n uint64
+	rd := strings.NewReader(string(out))
+	if _, err := fmt.Fscan(rd, &a, &b, &n); err != nil {
 		return fmt.Errorf("unexpected output %q", out)
+	}
+	eng.nStates = n
+	for {
+		var id uint64
+		if _, err := fmt.Fscan(rd, &id); err != nil {
+			break
+		}
+		eng.airIDs = append(eng.airIDs, id)
 	}
 	eng.injected = map[string]uint64{modPath + "/level/block.BitsPerBlock": a, modPath + "/level/biome.BitsPerBiome": b}
 	return nil
